@@ -420,8 +420,9 @@ struct Run {
         // column of the matrix itself obtained through get_column (which applies the pending permutation)
         bool want_col = np >= 2 && r.chance(SW ? 1u : 2u, 5u);
         if (want_col && pick_col(sidx, (int)r.below(3), (long)t)) { range_is_column = true; src = D.col[sidx]; srckind = "range_column"; }
-        else if (pending) { c.count("skip.entry_vector_while_lazy_pending"); return true; }
         else {
+          // (the row indices of an entry vector are public ones, also while a lazy row swap is pending inside the matrix)
+          if (pending) c.count("op.entry_vector_while_lazy_pending");
           SparseCol s = rand_sparse();
           if (r.chance(1, 5)) s = sparse_of(D.col[t]);  // same content as the target
           if constexpr (COMP) {
